@@ -3,6 +3,7 @@ package c02
 import (
 	"context"
 	"fmt"
+	"sync"
 	"time"
 
 	"verifharness/monitors"
@@ -10,21 +11,54 @@ import (
 	"verifharness/world"
 )
 
-// backlog: more header events arrive from DA than the hand-off channel holds while the consumer is busy
-// (it is inside an execution call). Nothing may be lost: once the consumer continues the node must reach
-// the tip of what is on the DA layer.
-func backlog(r *vk.Run) {
-	ctx := context.Background()
+// backlogChain produces the long chain of the backlog scenarios: more blocks than the hand-off channels hold.
+func backlogChain(ctx context.Context) (*world.Produced, error) {
 	n := world.EventChannelCapacity() + 50
 	spec := world.ChainSpec{Initial: 1}
 	for i := 0; i < n; i++ {
 		spec.Blocks = append(spec.Blocks, nil)
 	}
-	p, err := world.ProduceChain(ctx, spec, world.NewKeys("proposer"))
+	return world.ProduceChain(ctx, spec, world.NewKeys("proposer"))
+}
+
+// backlogs runs the scenarios in which one ingress brings in more events than the hand-off channel to the sync
+// loop holds. They share one chain and run side by side.
+//
+//	backlog                 all headers are found on the DA layer while the consumer is busy (inside an execution call)
+//	backlog-short-da-block  the same, the node's DA block time is a few milliseconds and the consumer stays busy for
+//	                        many DA block times after the channel filled up
+//	backlog-p2p             the P2P header store holds all headers before the store loop looks at it for the first time
+//	                        (a node started far behind its P2P stores): one tick of the store loop sees them all
+//
+// Nothing may be lost: the node must reach the tip of what it was given.
+func backlogs(r *vk.Run, chain func() (*world.Produced, error)) {
+	p, err := chain()
 	if err != nil {
 		r.Inconclusive("the aggregator producing the reference chain failed (not this property's business): " + "backlog chain: " + err.Error())
 		return
 	}
+	var wg sync.WaitGroup
+	for _, f := range []func(){
+		func() { backlogDA(r, p, "backlog", 0, 0) },
+		func() { backlogDA(r, p, "backlog-short-da-block", 3*time.Millisecond, 300*time.Millisecond) },
+		func() { backlogP2P(r, p) },
+	} {
+		wg.Add(1)
+		f := f
+		go func() {
+			defer wg.Done()
+			f()
+		}()
+	}
+	wg.Wait()
+}
+
+// backlogDA: more header events arrive from DA than the hand-off channel holds while the consumer is busy
+// (it is inside an execution call). Once the consumer continues the node must reach the tip of what is on the DA
+// layer. daBlockTime > 0: the node's configured DA block time; hold: how long the consumer stays busy after the
+// channel filled up (a lower bound: load only makes it longer).
+func backlogDA(r *vk.Run, p *world.Produced, name string, daBlockTime, hold time.Duration) {
+	ctx := context.Background()
 	f, err := world.NewFNPrepared(ctx, p, "", func(f *world.FN) {
 		release := make(chan struct{})
 		f.Exec.Delay = func(kind string) {
@@ -33,13 +67,14 @@ func backlog(r *vk.Run) {
 			}
 		}
 		f.Release = func() { close(release) }
+		f.DABlockTime = daBlockTime
 	})
 	if err != nil {
 		r.Violation("startup", err.Error(), nil)
 		return
 	}
 	defer f.L.Stop()
-	wit := map[string]any{"scenario": "backlog", "headers_on_da": len(p.Heights)}
+	wit := map[string]any{"scenario": name, "headers_on_da": len(p.Heights), "da_block_time": daBlockTime.String(), "consumer_busy_after_channel_full": hold.String()}
 	// all headers over six DA heights
 	per := (len(p.Heights) + 5) / 6
 	for h := 0; h < 6; h++ {
@@ -71,15 +106,22 @@ func backlog(r *vk.Run) {
 		f.N.M.VerifSignal("retrieve")
 		time.Sleep(time.Millisecond)
 	}
-	r.Count("backlog_channel_was_full", map[bool]int64{true: 1, false: 0}[full])
+	r.Count(name+"_channel_was_full", map[bool]int64{true: 1, false: 0}[full])
+	if full && hold > 0 {
+		// the consumer stays busy; the scan may go on meanwhile (it is ticked as before)
+		for t0 := time.Now(); time.Since(t0) < hold; {
+			f.N.M.VerifSignal("retrieve")
+			time.Sleep(time.Millisecond)
+		}
+	}
 	f.Release()
 	if err := f.L.RetrieveUntilIdle(f.DA, 7); err != nil {
-		r.Inconclusive("backlog: scan did not finish within the watchdog")
+		r.Inconclusive(name + ": scan did not finish within the watchdog")
 		return
 	}
 	if err := f.L.SyncBarrier(); err != nil {
 		if err == world.ErrWatchdog {
-			r.Inconclusive("backlog: sync barrier watchdog")
+			r.Inconclusive(name + ": sync barrier watchdog")
 			return
 		}
 		r.Violation("backlog", "sync loop: "+err.Error(), wit)
@@ -88,7 +130,49 @@ func backlog(r *vk.Run) {
 	_, probs := monitors.CheckFullNode(ctx, f, 0, true, r.Hit)
 	r.Hit("backlog-nothing-dropped")
 	if len(probs) > 0 {
-		r.Violation("converged", fmt.Sprintf("%d headers arrived from DA while the consumer was busy (hand-off channel capacity %d): %s", len(p.Heights), world.EventChannelCapacity(), probs[0]), wit)
+		r.Violation("converged", fmt.Sprintf("%s: %d headers arrived from DA while the consumer was busy (hand-off channel capacity %d): %s", name, len(p.Heights), world.EventChannelCapacity(), probs[0]), wit)
 	}
-	r.Eval("backlog", true, wit)
+	r.Eval(name, true, wit)
+}
+
+// backlogP2P: the node's P2P header store is ahead of the node by more headers than the hand-off channel holds when
+// the store loop looks at it (all blocks are empty: a header is all a block needs). Whatever the store loop
+// hands over per tick, after a few ticks the node must stand at the head of its P2P store.
+func backlogP2P(r *vk.Run, p *world.Produced) {
+	ctx := context.Background()
+	f, err := world.NewFN(ctx, p, "")
+	if err != nil {
+		r.Violation("startup", err.Error(), nil)
+		return
+	}
+	defer f.L.Stop()
+	last := len(p.Heights) - 1
+	wit := map[string]any{"scenario": "backlog-p2p", "headers_in_p2p_store": len(p.Heights)}
+	inconc := func(what string, err error) bool {
+		if err == nil {
+			return false
+		}
+		if err == world.ErrWatchdog {
+			r.Inconclusive("backlog-p2p: " + what + ": watchdog")
+		} else {
+			r.Violation("backlog", "backlog-p2p: "+what+": "+err.Error(), wit)
+		}
+		return true
+	}
+	// everything reaches the store unseen, then the store loops tick (three times: an implementation may hand a
+	// long backlog over in portions)
+	if inconc("fill the P2P header store", f.Do(world.Action{Kind: "p2p-h+", I: last})) {
+		return
+	}
+	for k := 0; k < 3; k++ {
+		if inconc("store loop tick", f.Do(world.Action{Kind: "p2p-tick"})) {
+			return
+		}
+	}
+	_, probs := monitors.CheckFullNode(ctx, f, 0, true, r.Hit)
+	r.Hit("p2p-backlog-nothing-dropped")
+	if len(probs) > 0 {
+		r.Violation("converged", fmt.Sprintf("backlog-p2p: the P2P header store held %d headers when the store loop first looked at it (hand-off channel capacity %d): %s", len(p.Heights), world.EventChannelCapacity(), probs[0]), wit)
+	}
+	r.Eval("backlog-p2p", true, wit)
 }
